@@ -207,13 +207,17 @@ RULES: Dict[str, Tuple[str, str]] = {
     'BD-9': ('bw.translation', 'the graph built for one mark of each kind equals the declared relation (nodes, edges, attributes, node map)'),
     'BD-10': ('bw.merges', 'two declared node classes with the same node id are not merged silently'),
     'BD-11': ('bw.merges', 'two switch parameters with the same free-text name are not merged silently'),
+    'BD-13': ('bw.string_annotations', 'a mark in the return annotation is not translated into a dependency'),
     'BD-12': ('bw.string_annotations', 'an annotation given as a string is resolved or rejected, never skipped'),
+    'BN-4': ('bw.build_node', 'every class generated by build_node stays resolvable by its own name; no module attribute is overwritten'),
     'BN-1': ('bw.build_node', 'the run method generated by build_node is named like the attribute it is stored as'),
     'BN-2': ('bw.build_node', 'the run method generated by build_node carries the documentation of the wrapped method'),
     'BN-3': ('bw.build_node', 'the run method generated by build_node carries the not re-bound annotations of the wrapped method'),
     'ON-6': ('st.order_skips_taken_nodes', 'a plain scope schedules exactly the nodes nobody has taken yet; a recurrent scope orders all its nodes'),
     'SH-6': ('cc.wrapper_kind', 'a process wrapper generated for a node class keeps no state in its enclosing scope'),
     'RC-8': ('oo.recurrent_loop', 'the hand-over entry of a recurrent subgraph is removed when the subgraph has finished'),
+    'RT-8': ('rt.retry_loop', 'the retry policy object is made from the policy class configured on the dag'),
+    'RT-9': ('rt.retry_loop', 'the retry loop gives up for every counter value at or beyond the configured attempts'),
     'RT-7': ('rt.retry_loop', 'the default value is never produced inside the protected region of the retry loop'),
     'LK-7': ('lk.spawn_registered', 'the task registry holds strong references (the event loop keeps only weak references to tasks)'),
     'LK-2': ('lk.run_cleanup', 'after run() has spawned, return, exception and cancellation of run() all pass the cancel-all loop'),
@@ -628,15 +632,19 @@ _add('C08', 'SH-6')
 _add('C04', 'ON-6')
 _add('C19', 'ON-6')
 _add('C16', 'VL-8', 'VL-9', 'VL-10', 'BD-12', 'BN-3')
-_add('C15', 'BD-9', 'BD-10', 'BD-11', 'BD-12', 'BN-3', 'SH-8')
-_add('C17', 'BN-1', 'EX-7')
-_add('C07', 'ER-8', 'EX-9', 'SH-8')
+_add('C15', 'BD-9', 'BD-10', 'BD-11', 'BD-12', 'BD-13', 'BN-3', 'SH-8')
+_add('C17', 'BN-1', 'EX-7', 'BN-4')
+_add('C06', 'BN-4')
+_add('C15', 'BN-4')
+_add('C07', 'ER-8', 'EX-9', 'SH-8', 'BN-4')
 _add('C10', 'SH-8', 'OO-10')
 _add('C03', 'SH-9', 'RD-9')
 _add('C09', 'SH-9')
 _add('C11', 'SH-9')
 _add('C05', 'RT-2', 'RT-5', 'RT-6')
-_add('C08', 'EX-9', 'EX-10', 'SH-8')
+_add('C12', 'RT-8', 'RT-9')
+_add('C02', 'RT-9')
+_add('C08', 'EX-9', 'EX-10', 'SH-8', 'BN-4')
 _add('C17', 'EX-8', 'EX-9', 'EX-10')
 _add('C18', 'FS-6')
 _add('C19', 'AS-5', 'AS-6')
